@@ -696,6 +696,15 @@ class Engine:
             rh = self.runtime_head(args[0], st)
             if rh == 'SliceIter': head = 'SliceIter'
         if head in ('&[IndentedBlockState]', '&[&str]'): head = head[1:]
+        # a type parameter (T, W, I, __A, Self ...): the implementation is chosen by the run-time type of the receiver, before
+        # any trait-level default
+        if args and not _retry and (len(head) <= 2 or head == 'Self' or head.startswith('__')):
+            rh = self.runtime_head(args[0], st)
+            if rh and rh != head:
+                try:
+                    return self.lookup_method(rh, trait, meth, args, st, callee, _retry=True)
+                except Unsupported:
+                    pass
         # local MIR definitions
         cands = self.prog.methods.get((head, meth), [])
         if trait is not None:
@@ -919,14 +928,14 @@ class Engine:
         if r[0] == 'panic':
             outs.append(Outcome('panic', st, msg=r[1])); return 'stop'
         if r[0] == 'fork_call':
-            # each alternative: push call to shim write_chunks(w, chunks)
+            # each alternative: push a call to the shim write_pieces(w, strs, chars, is_char)
             feas = [(c, res) for (c, res) in r[1] if self.feasible(st, c)]
             states = [st] + [st.copy() for _ in feas[1:]]
             for s_, (c, res) in zip(states, feas):
                 if not isinstance(c, bool):
                     s_.pc.append(c); s_.model = self.fix_model(s_, c)
-                cell = s_.new_cell(res[1])
-                self.push_call(s_, self.prog.free['write_chunks'], [r[2], Ref(cell, ())], term.dest, term.target)
+                cells = [Ref(s_.new_cell(v), ()) for v in res[1]]
+                self.push_call(s_, self.prog.free['write_pieces'], [r[2]] + cells, term.dest, term.target)
                 if s_ is not st: work.append(s_)
             return 'ok' if feas else 'stop'
         if r[0] == 'fork':
@@ -1271,10 +1280,12 @@ SHIMS3 = {
     ('Result', 'Try', 'from_output'): 'result_from_output',
     ('Option', 'IntoIterator', 'into_iter'): 'option_into_iter',
     ('Vec', 'Clone', 'clone'): 'vec_clone', ('Vec', 'PartialEq', 'eq'): 'vec_eq',
+    ('Vec', 'Clone', 'clone_from'): 'vec_clone_from',
     ('Vec', 'Extend', 'extend'): 'vec_extend', ('Vec', 'IntoIterator', 'into_iter'): 'vec_into_iter',
 }
 for _m in ('is_empty', 'contains', 'first', 'last', 'truncate', 'reverse'):
     SHIMS[('Vec', _m)] = 'vec_' + _m
 SHIMS[('Iterator', 'collect')] = 'iter_collect_vec'
+SHIMS[('Clone', 'clone_from')] = 'default_clone_from'
 # <&T as PartialEq>::eq
 BUILTIN_METHODS[('&T', 'eq')] = bi_ref_eq
